@@ -158,6 +158,34 @@ func oracleC09(x *Exec, so *StepObs) {
 			}
 		}
 	}
+	// an install (with or without --replace) that read the history only after another operation's pending revision had been
+	// stored must have been refused: the name is in use. (When the read comes BEFORE that record exists, install --replace
+	// slips through — that window is the recorded finding; this clause is the other side of it.)
+	for _, r := range so.Results {
+		if r.Op.Op != "install" || !created[r.Proc] {
+			continue
+		}
+		first := firstHistoryRead(x, r)
+		if first == 0 {
+			continue
+		}
+		for _, e := range evs {
+			if e.kind != "create" || e.proc == r.Proc || !strings.HasPrefix(e.status, "pending-") || e.seq >= first {
+				continue
+			}
+			// the other operation's record is still pending at the time of the read?
+			stillPending := true
+			for _, u := range evs {
+				if u.rev == e.rev && u.seq > e.seq && u.seq < first && (u.kind == "update" || u.kind == "delete") {
+					stillPending = false
+				}
+			}
+			if stillPending {
+				fail("name-in-use-refused", "install-read-the-pending-record", fmt.Sprintf("%s (install) first read the history after revision %d of %s had been stored as %s, and still created a revision", r.Proc, e.rev, e.proc, e.status))
+				return
+			}
+		}
+	}
 	// nobody creates a revision while another operation's revision is pending
 	state := map[int]string{}
 	for _, lr := range so.Before.Ledger {
@@ -219,6 +247,25 @@ func oracleC09(x *Exec, so *StepObs) {
 		}
 	}
 	ledgerInvariants(x, so, P, opName, "none"+ctx)
+}
+
+// firstHistoryRead returns (on the scale of recordTimeline) when the operation's first read of the release history was
+// answered, 0 if it made none.
+func firstHistoryRead(x *Exec, r *OpResult) uint64 {
+	if x.Backend.Kind == "memory" {
+		for i, c := range r.StoreLog {
+			if c.Op == "query" || c.Op == "list" || c.Op == "get" {
+				return c.Seq*1000 + uint64(i)
+			}
+		}
+		return 0
+	}
+	for _, q := range r.Reqs {
+		if q.Verb == "GET" && q.SeqOut != 0 && (strings.Contains(q.Path, "/secrets") || strings.Contains(q.Path, "/configmaps")) && strings.Contains(q.Query, "owner") {
+			return q.SeqOut * 1000
+		}
+	}
+	return 0
 }
 
 func genC09(seed, index uint64, tier string) *Plan {
@@ -290,6 +337,31 @@ func genC09(seed, index uint64, tier string) *Plan {
 		p.Variant += "-atomic-rollback"
 	}
 	p.Schedule = g.Schedule(160)
+	if tier != "race" && g.Chance(0.1) {
+		// name re-use race: the history holds one uninstalled revision; two installs (at least one with --replace) arrive,
+		// the second is held back until some point inside the first (a single priority change point)
+		p.Steps = []Step{
+			{Op: &OpSpec{Op: "install", Chart: 0}},
+			{Op: &OpSpec{Op: "uninstall", KeepHistory: true}},
+		}
+		if g.Chance(0.6) {
+			// … or two old revisions, the OLDEST of them failed: a first install the cluster refused, a replace, an uninstall
+			first := Step{Op: &OpSpec{Op: "install", Chart: 0, NoHooks: true}}
+			first.Faults = []FaultSpec{{Kind: FReject, Code: 403, Pred: &Pred{Storage: boolp(false), Mutating: boolp(true), PathHas: "/namespaces/", Nth: 1}}}
+			p.Steps = []Step{
+				first,
+				{Op: &OpSpec{Op: "install", Chart: 0, Replace: true}},
+				{Op: &OpSpec{Op: "uninstall", KeepHistory: true}},
+			}
+		}
+		a := OpSpec{Op: "install", Chart: g.N(len(p.Charts)), Replace: true, NoHooks: g.Chance(0.5), Values: g.UserValues()}
+		b := OpSpec{Op: "install", Chart: g.N(len(p.Charts)), Replace: g.Chance(0.8), NoHooks: g.Chance(0.5), Values: g.UserValues()}
+		p.Steps = append(p.Steps, Step{Group: []OpSpec{a, b}})
+		p.Policy = "pct"
+		p.PCTPrio = []int{90, 10, 50}
+		p.PCT = []int{3 + g.N(70)}
+		p.Variant = "pct-2-name-reuse"
+	}
 	if tier == "race" {
 		p.CoRelease = g.Pick("sched", "sched", "inner")
 		p.Variant = "race-" + p.CoRelease
